@@ -272,6 +272,15 @@ def run_impl(exe, cases, bdir, tag='impl', timeout=600):
         remaining = remaining[idx + 1:]
     return result, crashes
 
+def _big_stack():
+    # the extracted runners recurse over the operation list (not tail-recursive): give them the largest stack allowed
+    import resource
+    try:
+        soft, hard = resource.getrlimit(resource.RLIMIT_STACK)
+        resource.setrlimit(resource.RLIMIT_STACK, (hard, hard))
+    except Exception:
+        pass
+
 def run_model(exe, cases, impl_tr, bdir, tag='model', timeout=900, shards=8):
     """Run the extracted model; env tokens for each op are taken from the implementation transcript."""
     envs = {}
@@ -285,7 +294,7 @@ def run_model(exe, cases, impl_tr, bdir, tag='model', timeout=900, shards=8):
         part = cases[k::shards]
         spath = os.path.join(bdir, '%s_%d.script' % (tag, k))
         write_script(spath, part, envs)
-        procs.append(subprocess.Popen([exe, spath], stdout=subprocess.PIPE, stderr=subprocess.STDOUT))
+        procs.append(subprocess.Popen([exe, spath], stdout=subprocess.PIPE, stderr=subprocess.STDOUT, preexec_fn=_big_stack))
     result = {}; errs = []
     for p in procs:
         try:
